@@ -155,9 +155,12 @@ class Live(JupyterMixin, RenderHook):
             if not self._started:
                 return
             self._started = False
+            # taken over under the lock: a concurrent start() may install a new thread
+            refresh_thread = self._refresh_thread
+            self._refresh_thread = None
             try:
-                if self.auto_refresh and self._refresh_thread is not None:
-                    self._refresh_thread.stop()
+                if refresh_thread is not None:
+                    refresh_thread.stop()
                 # allow it to fully render on the last even if overflow
                 self.vertical_overflow = "visible"
                 if not self.console.is_jupyter:
@@ -180,9 +183,8 @@ class Live(JupyterMixin, RenderHook):
                     # jupyter last refresh must occur after console pop render hook
                     # i am not sure why this is needed
                     self.refresh()
-        if self.auto_refresh and self._refresh_thread is not None:
-            self._refresh_thread.join()
-            self._refresh_thread = None
+        if refresh_thread is not None:
+            refresh_thread.join()
 
     def __enter__(self) -> "Live":
         self.start()
